@@ -23,7 +23,10 @@ def P(theorems, projection, monitor, profiles, types, count, **kw):
     return d
 
 PROPS = {
-    "C01": P([], "C01", "C01", "races,default,big,stale,budget,groups,reuse", ALL, (1500, 40000)),
+    "C01": P([], "C01", "C01", "races,default,big,stale,budget,groups,reuse", ALL, (1500, 40000),
+             generated_lemmas=["ProtocolInst.protocol_ok"],
+             trusted_extra=["tools/build.py extract_protocol: regular expressions over wake_by_ref / push / pop (src/waker_list.rs) and poll_inner_no_remove (src/futures_unordered_bounded.rs) listing their shared-memory steps in textual order; ConcWake.v's transition system is my rendering of those steps (syntactic tie only)"],
+             assumptions=["Level B (ConcWake.v): sequential consistency; DiatomicWaker::register / notify and each half of MpscQueue::enqueue are single atomic steps; try_dequeue returns Empty only if the queue is empty or its first node is not linked yet"]),
     "C02": P([], "C02", "C02", "default,stale,limits,races,budget,groups,reuse,deque", "FUB,FU,FOB,FO", (2000, 50000)),
     "C03": P(["C03_release_acquire", "C03_side_condition_needed"], "C03", "C03", "drops,stale,races,default,budget,groups,reuse", ALL, (1500, 30000),
              generated_lemmas=["OrderingsInst.orderings_ok", "Calib.layout_ok"], min_events=2,
